@@ -1046,6 +1046,21 @@ func (x *Exec) evalSpecCall2(sc *specCtx, e *ast.CallExpr) Value {
 		}
 		tv := arg(1).(TypeV)
 		return x.unbox(sc.st, iv, tv.T)
+	case "structkey":
+		// structkey(T, f1, f2, ...): the value of struct type T with those fields (to name a key of a map keyed by a struct)
+		tv, ok := arg(0).(TypeV)
+		if !ok {
+			panic(engineErr("structkey: first argument must be a type"))
+		}
+		stt, ok := tv.T.Underlying().(*types.Struct)
+		if !ok || stt.NumFields() != len(e.Args)-1 {
+			panic(engineErr("structkey: %s is not a struct type with %d fields", tv.T, len(e.Args)-1))
+		}
+		sv := StructV{Typ: tv.T}
+		for i := 1; i < len(e.Args); i++ {
+			sv.Fields = append(sv.Fields, arg(i))
+		}
+		return sv
 	case "bytes2str":
 		need(1)
 		sv, ok := arg(0).(SliceV)
